@@ -33,7 +33,7 @@ fn out_at(x: u8, c: usize) -> u8 {
     }
 }
 
-//@ tier: thorough
+//@ tier: attempt
 //@ timeout: 2400
 //@ inst: I = Src (counting source, exact size_hint), F = fn(u8) -> ControlFlow<u8, Src>
 //@ funcs: stack::Stack::next
